@@ -846,11 +846,10 @@ def _short(q):
     return "::".join(parts[-2:]) if len(parts) >= 2 else q
 
 
-def expr(body, o, depth=6, _seen=None):
-    """Canonical string for the value an operand/place holds, following single-definition temps.
-    e.g.  Lt(len(raw_vals),min_values(expected))"""
-    if _seen is None:
-        _seen = set()
+def expr(body, o, depth=None, _seen=None):
+    """Canonical string for the value an operand/place holds, following single-definition temps,
+    e.g.  Lt(len(raw_vals),min_values(expected)).  The string of a sub-expression does not depend
+    on where it is nested (memoised per local), so guard and site expressions compare by equality."""
     if isinstance(o, dict):
         if "int" in o:
             return str(o["int"])
@@ -863,9 +862,8 @@ def expr(body, o, depth=6, _seen=None):
     else:
         p = o
     l = pl_local(p)
-    proj = pl_proj(p)
     suffix = ""
-    for el in proj:
+    for el in pl_proj(p):
         if el == "*":
             continue
         if el.startswith("."):
@@ -874,41 +872,68 @@ def expr(body, o, depth=6, _seen=None):
             suffix += "#" + el.split("#")[1]
         else:
             suffix += el
+    base = _expr_local(body, l, _seen or frozenset())
+    if base.endswith("\u27c2"):
+        # checked arithmetic yields (value, overflowed): `.0` is the value itself
+        base = base[:-1]
+        if suffix.startswith(".0"):
+            suffix = suffix[2:]
+    return base + suffix
+
+
+def _expr_local(body, l, seen):
+    memo = body.__dict__.setdefault("_expr_memo", {})
+    if l in memo:
+        return memo[l]
     name = body.local_name(l)
     sites = body.def_sites(l)
     whole = [s for s in sites if isinstance(s[2], int)]
     if name and (len(whole) != 1 or 1 <= l <= body.argc):
-        return name + suffix
-    if 1 <= l <= body.argc:
-        return ("arg%d" % l) + suffix
-    if depth <= 0 or l in _seen or len(whole) != 1:
-        return (name or "_%d" % l) + suffix
-    _seen = _seen | {l}
-    (bb, idx, lhs, rhs) = whole[0]
-    if isinstance(rhs, Call):
-        c = rhs
-        nm = _short(c.callee_q or c.decl_q)
-        if c.is_(r"::deref$", r"::as_ref$", r"::borrow$", r"Option::as_deref$") and len(c.args) == 1:
-            return expr(body, c.args[0], depth, _seen) + suffix
-        return "%s(%s)%s" % (nm.split("::")[-1] if not nm.startswith("{") else nm,
-                             ",".join(expr(body, a, depth - 1, _seen) for a in c.args), suffix)
-    rv = rhs
-    k = rv["k"]
-    if k in ("use", "cast", "repeat"):
-        return expr(body, rv["op"], depth, _seen) + suffix
-    if k in ("ref", "rawptr"):
-        return expr(body, rv["place"], depth, _seen) + suffix
-    if k == "binop":
-        return "%s(%s,%s)" % (rv["op"].replace("WithOverflow", ""), expr(body, rv["a"], depth - 1, _seen), expr(body, rv["b"], depth - 1, _seen))
-    if k == "unop":
-        return "%s(%s)" % (rv["op"], expr(body, rv["a"], depth - 1, _seen))
-    if k == "discr":
-        return "discr(%s)" % expr(body, rv["place"], depth - 1, _seen)
-    if k == "agg":
-        if rv["ak"] == "adt":
-            return "%s::%s(%s)%s" % (rv["adt"].split("::")[-1], rv["variant"], ",".join(expr(body, a, depth - 1, _seen) for a in rv["ops"]), suffix)
-        return "%s(%s)%s" % (rv["ak"], ",".join(expr(body, a, depth - 1, _seen) for a in rv["ops"]), suffix)
-    return "?" + suffix
+        r = name
+    elif 1 <= l <= body.argc:
+        r = "arg%d" % l
+    elif l in seen or len(whole) != 1 or len(seen) > 60:
+        return name or "_%d" % l       # cycle / multi-def temp: not memoised under this context
+    else:
+        seen = seen | {l}
+        (bb, idx, lhs, rhs) = whole[0]
+        if isinstance(rhs, Call):
+            c = rhs
+            nm = _short(c.callee_q or c.decl_q)
+            if c.is_(r"::deref$", r"::as_ref$", r"::borrow$", r"Option::as_deref$") and len(c.args) == 1:
+                r = expr(body, c.args[0], None, seen)
+            else:
+                r = "%s(%s)" % (nm.split("::")[-1] if not nm.startswith("{") else nm,
+                                ",".join(expr(body, a, None, seen) for a in c.args))
+        else:
+            rv = rhs
+            k = rv["k"]
+            if k in ("use", "cast", "repeat"):
+                r = expr(body, rv["op"], None, seen)
+            elif k in ("ref", "rawptr"):
+                r = expr(body, rv["place"], None, seen)
+            elif k == "binop":
+                r = "%s(%s,%s)" % (rv["op"].replace("WithOverflow", ""), expr(body, rv["a"], None, seen), expr(body, rv["b"], None, seen))
+                if rv["op"].endswith("WithOverflow"):
+                    r += "\u27c2"
+            elif k == "unop":
+                r = "%s(%s)" % (rv["op"], expr(body, rv["a"], None, seen))
+            elif k == "discr":
+                r = "discr(%s)" % expr(body, rv["place"], None, seen)
+            elif k == "agg":
+                if rv["ak"] == "adt":
+                    r = "%s::%s(%s)" % (rv["adt"].split("::")[-1], rv["variant"], ",".join(expr(body, a, None, seen) for a in rv["ops"]))
+                elif rv["ak"] == "closure":
+                    r = "closure(%s)" % ",".join(expr(body, a, None, seen) for a in rv["ops"])
+                else:
+                    r = "%s(%s)" % (rv["ak"], ",".join(expr(body, a, None, seen) for a in rv["ops"]))
+            else:
+                r = "?"
+        if len(r) > 600:
+            import hashlib
+            r = r[:200] + "…#" + hashlib.sha1(r.encode()).hexdigest()[:8] + ")" * (r[:200].count("(") - r[:200].count(")"))
+    memo[l] = r
+    return r
 
 
 def guards(body, bb):
